@@ -18,15 +18,15 @@ from vlib import ctl, engine, hist
 PROPERTY = "C02"
 LEVEL = "exploration"
 RULE = ("program families over the editable task family vh (top/deep/mix/guarded(catch)/failing/readf(File input)/nestfile(File built inside a body, nested in call arguments)/"
-        "pipeline(File output)), each task unversioned or versioned at random; histories of N executions with one step "
+        "pipeline(File output)/shapes(lazy parts inside dataclass, namedtuple, dict, tuple results)), each task unversioned or versioned at random; histories of N executions with one step "
         "between executions from {edit body, revert to earlier body, change argument, change it back, rewrite input "
         "file with different size or mtime, touch nothing}.  Non-trivial = distinct history in which some execution "
         "both replayed cached work and re-executed something (0 < invocations < invocations of the uncached run).")
 ASSUMPTIONS = ["default cache options only (cache_scope=BACKEND, check_valid=full), as the property states",
                "tasks are deterministic functions of arguments and input file contents"]
 
-FAMILIES = ["top", "deep", "mix", "guarded", "failing", "readf", "pipeline", "nestfile"]
-EDITABLE = {"top": ["leafA", "leafB", "plus", "mid", "top"], "deep": ["leafA", "leafB", "plus", "mid", "top", "deep"],
+FAMILIES = ["top", "deep", "mix", "guarded", "failing", "readf", "pipeline", "nestfile", "shapes"]
+EDITABLE = {"shapes": ["leafA", "leafB", "plus", "mid", "shapes"], "top": ["leafA", "leafB", "plus", "mid", "top"], "deep": ["leafA", "leafB", "plus", "mid", "top", "deep"],
             "mix": ["leafA", "leafB", "plus", "mid", "top", "maybe_fail", "recover", "guarded"],
             "guarded": ["maybe_fail", "recover", "guarded", "leafA"], "failing": ["leafA", "leafB", "maybe_fail", "failing_parent"],
             "readf": ["readf"], "pipeline": ["readf", "writef", "pipeline"], "nestfile": ["readf", "cat2", "leafA"]}
@@ -59,6 +59,8 @@ class World:
             return T["top"](self.x, self.y)
         if f == "deep":
             return T["deep"](self.x)
+        if f == "shapes":
+            return [T["shapes"](self.x), T["leafB"](self.y)]
         if f == "mix":
             return [T["top"](self.x, self.y), T["mid"](self.x), T["guarded"](self.y)]
         if f == "guarded":
